@@ -62,6 +62,9 @@ class Holder:
                 names.append(value)
         return names
 
+    def class_choices(self):
+        return ('auto', *self._names), ['x', *self._names, 'y']
+
     def class_table(self, key):
         return self._table.get(key, 0)
 
@@ -864,6 +867,33 @@ def result_temp(values, attrs, log):
     return down, log
 
 
+def _cells_of(polygons, wind):
+    return ((i, wind(i), polygon) for i, polygon in enumerate(polygons) if polygon is not None)
+
+
+def projected_comprehension(polygons):
+    calls = []
+
+    def wind(i):
+        calls.append(i)
+        return ('k', i)
+    features = [{'linear': linear_index, 'index': index, 'shape': polygon * 2} for linear_index, index, polygon in _cells_of(polygons, wind)]
+    return features, calls
+
+
+def projected_loop(polygons):
+    calls = []
+    log = []
+
+    def wind(i):
+        calls.append(i)
+        return ('k', i)
+    for linear_index, index, polygon in _cells_of(polygons, wind):
+        log.append((f"polygon{linear_index}", linear_index, index))
+        log.append(polygon)
+    return log, calls
+
+
 def _lookup(table, key):
     try:
         return table[key]
@@ -1164,6 +1194,7 @@ CASES = {
     'Holder.alias_of_self': [(HOLDER_A, 1), (HOLDER_B, 2)],
     'Holder.optional_names': [(HOLDER_A,), (HOLDER_B,), (HOLDER_C,)],
     'Holder.optional_names_walrus': [(HOLDER_A,), (HOLDER_B,), (HOLDER_C,)],
+    'Holder.class_choices': [(HOLDER_A,)],
     'Holder.class_table': [(HOLDER_A, 'a'), (HOLDER_A, 'z')],
     'match_sequence': [(HOLDER_A,), (HOLDER_B,), (HOLDER_C,)],
     'match_values': [('a',), ('b',), ('c',), (None,), ('d',), (0,)],
@@ -1256,6 +1287,8 @@ CASES = {
     'generator_with_prologue': [({'_a': {'units': 'm'}, 'b': {'units': 'km'}},), ({'a': {}},), ({},)],
     'rebinding_helper': [({'bounds': 1}, {'name': 'z'}, 'z'), ({}, {'name': 'z'}, 'q'), ({'bounds': 2}, {'name': 'z'}, None)],
     'result_temp': [([1, 2, -1], {}, []), ([-1], {'positive': 'down'}, []), ([], {}, [])],
+    'projected_comprehension': [([1, None, 3],), ([],)],
+    'projected_loop': [([1, None, 3],), ([],)],
     'inline_tail': [({'a': 1, 2: 'two'}, 'a'), ({'a': 1, 2: 'two'}, '2'), ({}, 'z')],
     'inline_statement': [(2,), (0,)],
     'inline_names_do_not_clash': [([1, 2],), ([],)],
